@@ -10,7 +10,7 @@ def run(ctx):
     fam = scen.c09_family()
     for workers in (2, 3) if not quick else (2,):
         out = ctx.path(f"runs_w{workers}.ndjson")
-        args = {"groups": ["SCHED"], "workers": workers, "max_runs": 25 if quick else 1500, "seed": ctx.seed, "policy": "pct",
+        args = {"groups": ["SCHED"], "workers": workers, "max_runs": ctx.n(25, 1500), "seed": ctx.seed, "policy": "pct",
                 "out": out, "scenarios": fam}
         r = ctx.vh("sched", args, timeout=3000)
         se.report(ctx, r, args, "C09", also=("C01", "C02", "C03"))
